@@ -21,10 +21,31 @@ const (
 
 var kindNames = []string{"end", "fatal", "never-ends"}
 
+// Error values a failing input can return.
+const (
+	errSentinel      = iota // an error of its own
+	errCanceled             // context.Canceled itself, although nobody cancelled the input's context
+	errWrapsCanceled        // an error of its own that wraps context.Canceled
+	errDeadline             // context.DeadlineExceeded, although the input's context has no deadline
+)
+
+var errKindNames = []string{"sentinel", "context.Canceled", "wraps context.Canceled", "context.DeadlineExceeded"}
+
+// Consumer's per-call contexts on the merged stream.
+const (
+	ctxLive      = iota // context.Background()
+	ctxCancelled        // cancelled before the call
+	ctxExpired          // deadline already in the past before the call
+	ctxCancelledWhileWaiting
+)
+
+var ctxModeNames = []string{"live", "cancelled before the call", "deadline already past", "cancelled while waiting"}
+
 type sInput struct {
 	N       int     `json:"n"`
 	Kind    int     `json:"kind"`
 	FatalAt int     `json:"fatal_at"`
+	ErrKind int     `json:"err_kind"`
 	Pace    float64 `json:"pacing"`
 }
 
@@ -33,14 +54,47 @@ type sPlan struct {
 	Inputs     []sInput `json:"inputs"`
 	CloseAfter int      `json:"close_after"` // -1: read until End / error, then Close
 	ConsPace   float64  `json:"consumer_pacing"`
+	// ConsCtx[k] is the kind of context the consumer's k-th Next call gets (calls beyond the table
+	// get a live one); CtxDelayUs[k] the delay before a "cancelled while waiting" context is cancelled.
+	ConsCtx    []int `json:"consumer_ctx,omitempty"`
+	CtxDelayUs []int `json:"consumer_ctx_cancel_delay_us,omitempty"`
 }
 
 func (p sPlan) key() string {
-	s := fmt.Sprintf("smerge|close=%d", p.CloseAfter)
+	s := fmt.Sprintf("smerge|close=%d|ctx=%v", p.CloseAfter, p.ConsCtx)
 	for _, in := range p.Inputs {
-		s += fmt.Sprintf("|%d,%d,%d", in.N, in.Kind, in.FatalAt)
+		s += fmt.Sprintf("|%d,%d,%d,%d", in.N, in.Kind, in.FatalAt, in.ErrKind)
 	}
 	return s
+}
+
+func (p sPlan) usesCtx() bool {
+	for _, m := range p.ConsCtx {
+		if m != ctxLive {
+			return true
+		}
+	}
+	return false
+}
+
+// drawConsCtx pre-draws the consumer's per-call contexts. Because the consumer must be able to
+// tell its own context's error from an input's, failing inputs of such a plan only use error
+// values that are not identical to a context error.
+func (p *sPlan) drawConsCtx(rnd *vkit.Rand, share float64) {
+	k := rnd.Range(2, 10)
+	for i := 0; i < k; i++ {
+		m := ctxLive
+		if rnd.Bool(share) {
+			m = 1 + rnd.Intn(3)
+		}
+		p.ConsCtx = append(p.ConsCtx, m)
+		p.CtxDelayUs = append(p.CtxDelayUs, vkit.Pick(rnd, []int{0, 5, 30, 100, 300}))
+	}
+	for i := range p.Inputs {
+		if p.Inputs[i].ErrKind == errCanceled || p.Inputs[i].ErrKind == errDeadline {
+			p.Inputs[i].ErrKind = vkit.Pick(rnd, []int{errSentinel, errWrapsCanceled})
+		}
+	}
 }
 
 func (p sPlan) total() int {
@@ -67,6 +121,7 @@ type recIn struct {
 	pert    *vkit.Perturber
 	clock   *vkit.Clock
 	fatal   error
+	unique  bool         // fatal cannot be mistaken for the error of a done context
 	endTick atomic.Int64 // tick at which End was first returned
 	errTick atomic.Int64 // tick at which the fatal error was first returned
 	ctxTick atomic.Int64 // tick at which a context error was first returned
@@ -83,7 +138,9 @@ func (s *recIn) Next(ctx context.Context) (uint64, error) {
 	case err == nil:
 	case err == stream.End:
 		s.endTick.CompareAndSwap(0, s.clock.Tick())
-	case s.fatal != nil && err == s.fatal:
+	case s.fatal != nil && err == s.fatal && (s.unique || ctx.Err() == nil):
+		// The input failed on its own (if its error is a context error value, only counted as
+		// such while the context it was given is still live).
 		s.errTick.CompareAndSwap(0, s.clock.Tick())
 	default:
 		if s.ctxTick.CompareAndSwap(0, s.clock.Tick()) {
@@ -134,7 +191,17 @@ func runStream1(c *vkit.Case, p sPlan) {
 		lens[i] = in.N
 		switch in.Kind {
 		case kindFatal:
-			ri.fatal = fmt.Errorf("fatal error of input %d at position %d", i, in.FatalAt)
+			switch in.ErrKind {
+			case errCanceled:
+				ri.fatal = context.Canceled
+			case errWrapsCanceled:
+				ri.fatal, ri.unique = fmt.Errorf("input %d failed at position %d: %w", i, in.FatalAt, context.Canceled), true
+			case errDeadline:
+				ri.fatal = context.DeadlineExceeded
+			default:
+				ri.fatal, ri.unique = fmt.Errorf("fatal error of input %d at position %d", i, in.FatalAt), true
+			}
+			r.Count("stream.Merge failing input's error value", errKindNames[in.ErrKind], 1)
 			pr.FatalAt = in.FatalAt
 			pr.Fatal = ri.fatal
 			lens[i] = in.FatalAt
@@ -171,17 +238,40 @@ func runStream1(c *vkit.Case, p sPlan) {
 		closeRet int64
 		pn       *vkit.Panic
 		phase    atomic.Int32
+		calls    []string // the consumer's Next calls made with a context of its own, and what they returned
+		ownCtx   int      // how many Next calls returned the error of the consumer's own done context
 	)
 	done := make(chan struct{})
 	go func() {
 		defer close(done)
 		gs.add()
-		ctx := context.Background()
-		for {
+		for call := 0; ; call++ {
 			if p.CloseAfter >= 0 && len(got) >= p.CloseAfter {
 				break
 			}
 			consPert.Do()
+			ctx, cancel, mode := context.Background(), context.CancelFunc(nil), ctxLive
+			if call < len(p.ConsCtx) {
+				mode = p.ConsCtx[call]
+			}
+			switch mode {
+			case ctxCancelled:
+				ctx, cancel = context.WithCancel(ctx)
+				cancel()
+			case ctxExpired:
+				ctx, cancel = context.WithDeadline(ctx, time.Now().Add(-time.Second))
+			case ctxCancelledWhileWaiting:
+				// Cancelled by a helper that sleeps (never a timer in a select: a goroutine of the
+				// case that is asleep keeps the quiescence verdict from being "stuck").
+				ctx, cancel = context.WithCancel(ctx)
+				d := time.Duration(p.CtxDelayUs[call]) * time.Microsecond
+				cc := cancel
+				go func() {
+					gs.add()
+					time.Sleep(d)
+					cc()
+				}()
+			}
 			phase.Store(phNext)
 			var v uint64
 			var err error
@@ -190,6 +280,28 @@ func runStream1(c *vkit.Case, p sPlan) {
 			t1 := clock.Tick()
 			if pn != nil {
 				return
+			}
+			if mode != ctxLive {
+				res := "a value"
+				own := err != nil && err != stream.End && ctx.Err() != nil && err == ctx.Err()
+				switch {
+				case own:
+					res = "the consumer's context error"
+				case err == stream.End:
+					res = "End"
+				case err != nil:
+					res = "another error"
+				}
+				r.Count("stream.Merge Next with the consumer's own context: "+ctxModeNames[mode], res, 1)
+				if len(calls) < 24 {
+					calls = append(calls, fmt.Sprintf("call %d ctx %s -> %s", call, ctxModeNames[mode], res))
+				}
+				cancel()
+				if own {
+					// Nothing was consumed and nothing may be lost: carry on.
+					ownCtx++
+					continue
+				}
 			}
 			if err == stream.End {
 				outcome, lastCall, lastRet = outEnd, t0, t1
@@ -252,6 +364,9 @@ func runStream1(c *vkit.Case, p sPlan) {
 			"received": showVals(got), "outcome": outNames[outcome], "last_next_call_tick": lastCall, "last_next_return_tick": lastRet,
 			"close_return_tick": closeRet, "inputs": inputStates(),
 		})
+		if len(calls) > 0 {
+			w["consumer_calls_with_own_context"] = calls
+		}
 		if repErr != nil {
 			w["reported_error"] = repErr.Error()
 		}
@@ -355,6 +470,9 @@ func runStream1(c *vkit.Case, p sPlan) {
 	if p.has(kindBlock) {
 		r.Count("stream.Merge", "closed with a never-ending input", 1)
 	}
+	if ownCtx > 0 {
+		r.Count("stream.Merge after a Next that returned the consumer's context error, the consumer went on and reached", outNames[outcome], 1)
+	}
 	if r.WantSample() && n >= 2 && len(got) >= 2 && c.Index%7 == 3 {
 		s := map[string]any{"case": c.ID(), "function": "stream.Merge", "plan": p, "received": showVals(got), "outcome": outNames[outcome]}
 		if repErr != nil {
@@ -419,6 +537,7 @@ func smergeErrCase(c *vkit.Case) {
 		in := sInput{Pace: vkit.Pick(rnd, intensities)}
 		if i == cb.i {
 			in.Kind, in.N, in.FatalAt = kindFatal, errLen, cb.p
+			in.ErrKind = (c.Index / len(combos)) % len(errKindNames) // every combination with every error value
 		} else {
 			in.Kind, in.N = cb.others, rnd.Intn(5)
 		}
@@ -429,6 +548,7 @@ func smergeErrCase(c *vkit.Case) {
 		c.R.Count("stream.Merge", "error combos covered", 1)
 	}
 	c.R.Count("stream.Merge error position", fmt.Sprintf("after %d items", cb.p), 1)
+	c.R.Count("stream.Merge enumerated error value", errKindNames[(c.Index/len(combos))%len(errKindNames)], 1)
 	c.R.Count("stream.Merge failing input", fmt.Sprintf("input %d of %d, others %s", cb.i, cb.n, kindNames[cb.others]), 1)
 }
 
@@ -443,6 +563,7 @@ func genInputs(c *vkit.Case, n int, weights []int) []sInput {
 		}
 		if in.Kind == kindFatal {
 			in.FatalAt = rnd.Intn(in.N + 1)
+			in.ErrKind = rnd.Weighted([]int{40, 20, 20, 20})
 		}
 		ins = append(ins, in)
 	}
@@ -494,13 +615,47 @@ func smergeRandCase(c *vkit.Case) {
 			p.CloseAfter = rnd.Intn(p.total() + 2)
 		}
 	}
+	if rnd.Bool(0.25) {
+		p.drawConsCtx(rnd, 0.4)
+	}
 	runStream(c, p)
+}
+
+// smergeCtxCase: the consumer gives some Next calls a context that is already done or is
+// cancelled while it waits, then carries on with a live one: nothing may be lost or duplicated and
+// the stream must still end (or fail with an input's error) as if those calls had not been made.
+func smergeCtxCase(c *vkit.Case) {
+	if c.R.NViolations() >= maxViolations {
+		return
+	}
+	rnd := c.Rand
+	n := arities[1+c.Index%(len(arities)-1)]
+	p := sPlan{Label: "consumer-contexts", ConsPace: vkit.Pick(rnd, intensities), CloseAfter: -1}
+	switch rnd.Intn(4) {
+	case 0, 1: // healthy inputs: exactly the union, then End
+		p.Inputs = genInputs(c, n, []int{1, 0, 0})
+	case 2:
+		p.Inputs = genInputs(c, n, []int{70, 30, 0})
+	default:
+		p.Inputs = genInputs(c, n, []int{50, 15, 35})
+		if p.has(kindBlock) && !p.has(kindFatal) {
+			p.CloseAfter = rnd.Intn(p.total() + 1)
+		}
+	}
+	p.drawConsCtx(rnd, 0.5)
+	if c.Index%3 == 0 {
+		p.ConsCtx[0] = 1 + (c.Index/3)%3 // the very first call, before anything can be ready
+	}
+	runStream(c, p)
+	if p.usesCtx() {
+		c.R.Count("stream.Merge", "plans with consumer contexts", 1)
+	}
 }
 
 // ---------------------------------------------------------------------------------------------
 // Named regression scenarios for the defects already repaired in /repo (DESIGN section 5).
 
-const nRegress = 8
+const nRegress = 10
 
 func regressCase(c *vkit.Case) {
 	if c.R.NViolations() >= maxViolations {
@@ -553,6 +708,27 @@ func regressCase(c *vkit.Case) {
 				in.FatalAt = rnd.Intn(in.N + 1)
 			}
 			p.Inputs = append(p.Inputs, in)
+		}
+		runStream(c, p)
+	case 8:
+		name = "an input that fails with context.Canceled (or an error wrapping it) of its own is reported, not taken for End"
+		n := rnd.Range(1, 4)
+		p := sPlan{Label: name, CloseAfter: -1, ConsPace: pace()}
+		f := rnd.Intn(n)
+		for i := 0; i < n; i++ {
+			in := sInput{N: rnd.Range(1, 4), Kind: kindEnd, Pace: pace()}
+			if i == f {
+				in.Kind, in.FatalAt, in.ErrKind = kindFatal, rnd.Intn(in.N), []int{errCanceled, errWrapsCanceled}[(c.Index/nRegress)%2]
+			}
+			p.Inputs = append(p.Inputs, in)
+		}
+		runStream(c, p)
+	case 9:
+		name = "a Next that ends on the consumer's own done context does not poison later Next calls"
+		n := rnd.Range(1, 3)
+		p := sPlan{Label: name, CloseAfter: -1, ConsPace: pace(), ConsCtx: []int{1 + (c.Index/nRegress)%3, ctxLive, 1 + rnd.Intn(3)}, CtxDelayUs: []int{20, 0, 100}}
+		for i := 0; i < n; i++ {
+			p.Inputs = append(p.Inputs, sInput{N: rnd.Range(1, 4), Kind: kindEnd, Pace: vkit.Pick(rnd, []float64{0.4, 0.8, 1})})
 		}
 		runStream(c, p)
 	case 6:
